@@ -63,6 +63,10 @@ type CloseCli struct {
 	Note func(ctx context.Context, tok int) error `notify:"true"`
 	Big  func(ctx context.Context, n int) (string, error)
 	Sub  func(ctx context.Context, id int, n int) (<-chan int, error)
+	// BigAsSub declares a channel result for a server method that answers with a string:
+	// the client cannot make sense of the response, so the call stays in flight until the
+	// client is closed (or the connection is lost)
+	BigAsSub func(ctx context.Context, n int) (<-chan int, error) `rpc_method:"T.Big"`
 }
 
 // S-CLOSE (DESIGN §3 C18): the closer is a low-priority actor; with bound b it is fired at
@@ -87,6 +91,8 @@ func init() {
 			// execution of the channel-id response)
 			add("ws-sub", 2+b, map[string]int{"ws": 1, "sub": 1})
 			add("ws-big", 1+b, map[string]int{"ws": 1, "big": 1})
+			// a call whose response the client cannot interpret is in flight when the closer runs
+			add("ws-badsub", 1+b, map[string]int{"ws": 1, "badsub": 1, "calls": 1})
 			add("ws-fin-window", 1+b, map[string]int{"ws": 1, "calls": 1, "sub": 1, "reconnect": 1, "fault": int(vnet.FIN)})
 			add("ws-rst-window", 1+b, map[string]int{"ws": 1, "calls": 1, "reconnect": 1, "fault": int(vnet.RST)})
 			add("ws-fin-dial", 1+b, map[string]int{"ws": 1, "calls": 1, "reconnect": 1, "fault": int(vnet.FIN), "ydial": 1})
@@ -159,7 +165,7 @@ func closeBody(s *vsched.Sched, p Param) {
 		} else if !has("closed") {
 			s.Violate("C18: the closer did not return; alive: %s", strings.Join(s.Alive(), " "))
 		}
-		for _, k := range []string{"A", "B", "N", "L", "S", "X1", "X2", "XS"} {
+		for _, k := range []string{"A", "B", "N", "L", "S", "M", "X1", "X2", "XS"} {
 			if has("iss-"+k) && !has("ret-"+k) {
 				s.Violate("C18: call %s never returned after the client was closed; alive: %s", k, strings.Join(s.Alive(), " "))
 			}
@@ -254,6 +260,17 @@ func closeBody(s *vsched.Sched, p Param) {
 		st := &subState{}
 		chans = append(chans, st)
 		s.Go("caller-s", func() { issue("S", sub(st, 1)) })
+	}
+	if p.I("badsub") == 1 {
+		s.Go("caller-m", func() {
+			issue("M", func() string {
+				ch, err := cli.BigAsSub(context.Background(), 3)
+				if err != nil {
+					return "err:" + errClass(err)
+				}
+				return fmt.Sprintf("chan=%v", ch != nil)
+			})
+		})
 	}
 	if f := vnet.FaultKind(p.I("fault")); f != vnet.None {
 		s.Go("zcut", func() {
